@@ -2,6 +2,9 @@ import Model
 import Spec
 import Gen
 import Proofs.Reflect
+import Proofs.ReflectInv
+import Proofs.ReflectWire
+import Props.C01
 /-!
   C18 — struct marshalling and unmarshalling are inverse and dictionary-faithful.
   `Model.Reflect`: shapes of tagged Go structs (leaf Go types, pointers, slices, nested /
@@ -10,7 +13,7 @@ import Proofs.Reflect
   convertibility between the field types as `toData` / `fromData`.
 -/
 namespace DV.Props.C18
-open DV
+open DV DV.Spec
 
 /-- Dictionary-faithful: for every struct shape without `diam.AVP`-typed fields, every value and
     every dictionary in which a code determines its entry, every AVP that `Marshal` produces - at
@@ -40,9 +43,9 @@ theorem C18_optional (find : FindFn) (s : Shape) (e : DEnt) (tag : FieldTag) (v 
 /-- the conversions are inverse on the values the well-formedness predicate admits: what a leaf
     field is converted to on the way out converts back to the same value -/
 theorem C18_leaf_inverse (find : FindFn) (t : GoT) (v : GV) (e : DEnt) (hw : wfField find (.leaf t) (.leaf v) e = true)
-    (fuel : Nat) (cur : RV) :
+    (cur : RV) :
     ∃ d, marshalField find (.leaf t) (.leaf v) e = .ok [mkFieldAVP e d] ∧
-      unmarshalField find (fuel + 1) (.leaf t) [mkFieldAVP e d] cur = .leaf v := by
+      unmarshalField find (.leaf t) [mkFieldAVP e d] cur = .leaf v := by
   simp only [wfField, Bool.and_eq_true] at hw
   obtain ⟨hg, hc⟩ := hw
   have hg' : e.ty ≠ T.grouped := by simpa using hg
@@ -54,16 +57,45 @@ theorem C18_leaf_inverse (find : FindFn) (t : GoT) (v : GV) (e : DEnt) (hw : wfF
     refine ⟨d, by simp [marshalField, hg', hd], ?_⟩
     simp [unmarshalField, mkFieldAVP, hc']
 
-/-- The full round-trip statement: for every dictionary, every struct shape and every value
-    inside the well-formed fragment (tags resolve, codes of one struct level are pairwise
-    distinct, each leaf value survives its conversion pair, slice elements and pointees marshal
-    to one AVP each), `Marshal` succeeds and `Unmarshal` of its output into a fresh struct gives
-    the value back - nil and empty slices identified, untagged and omitted-when-empty fields read
-    back as zero. -/
-def C18_inverse_Statement : Prop :=
-  ∀ (find : FindFn) (fs : List SField) (vs : List RV), wfStruct find fs vs = true → distinct (levelCodes find fs) = true →
+/-- The round trip, at full strength: for every dictionary, every struct shape and every value
+    inside the well-formed fragment - tags resolve; the codes of one struct level (embedded
+    structs flattened) are pairwise distinct; each leaf value survives its conversion pair;
+    pointees and slice elements are non-nil values of one-AVP shapes; grouped AVPs are structs or
+    `diam.AVP`s with the entry's code - `Marshal` succeeds, and `Unmarshal` of its output into a
+    fresh struct yields the value in normal form: nil and empty slices identified, untagged
+    fields and fields omitted because empty read back as their zero value, everything else -
+    scalars of every data type, pointers, slices, nested, anonymous and embedded structs, AVP /
+    *AVP / []*AVP fields - exactly as it was.  (Mutual structural induction over the shape.) -/
+theorem C18_inverse (find : FindFn) (fs : List SField) (vs : List RV) (hw : wfStruct find fs vs = true)
+    (hd : distinct (levelCodes find fs) = true) :
+    ∃ as, marshalStruct find fs vs = .ok as ∧ scanFields find fs as (zeroOf.zeroFields fs) = normFields fs vs :=
+  marshal_unmarshal find fs vs hw hd
+
+/-- ... and the same after a wire round trip: if the marshalled AVPs are canonical values of the
+    types the dictionary typing assigns (C01's hypothesis) and the struct has no `diam.AVP`-typed
+    field, then decoding the serialised AVPs and unmarshalling them gives the same struct
+    (composition with C01_api_avps: the tree read back is `wireL as`, and `Unmarshal` does not
+    look at Length fields). -/
+theorem C18_wire (find : FindFn) (ty : Nat → Nat → Nat) (fs : List SField) (vs : List RV)
+    (hw : wfStruct find fs vs = true) (hd : distinct (levelCodes find fs) = true) (hn : noAVPFields fs = true) :
     ∃ as, marshalStruct find fs vs = .ok as ∧
-      ∀ fuel, fuel ≥ 64 → normFields fs (scanFields find fuel fs as (zeroOf.zeroFields fs)) = normFields fs vs
+      (canonL as = true → typedOkL ty as = true → lenL as < 16777216 →
+        ∃ as', decodeAVPs ty ((encL as).length + 1) (encL as) = .ok as' ∧
+          scanFields find fs as' (zeroOf.zeroFields fs) = normFields fs vs) := by
+  obtain ⟨as, h1, h2⟩ := marshal_unmarshal find fs vs hw hd
+  refine ⟨as, h1, fun hc ht hsz => ⟨wireL as, DV.Props.C01.C01_api_avps ty as hc ht hsz, ?_⟩⟩
+  rw [scan_wire find fs as _ hn]; exact h2
+
+/-- the hypothesis about distinct codes is needed: two fields of one struct naming the same AVP
+    both receive all AVPs with that code (kernel-evaluated) -/
+theorem C18_duplicate_code_counterexample :
+    let find : FindFn := fun n => if n = 1 then some (9007, 0, true, T.u32) else none
+    let fs : List SField := [.mk ⟨1, false, false⟩ (.leaf .uint32), .mk ⟨1, false, false⟩ (.leaf .uint32)]
+    let vs : List RV := [.leaf (.i 5), .leaf (.i 6)]
+    (match marshalStruct find fs vs with
+     | .ok as => rvsBeq (scanFields find fs as (zeroOf.zeroFields fs)) [.leaf (.i 5), .leaf (.i 5)]
+     | _ => false) = true := by
+  decide
 
 /-- non-vacuity / a kernel-evaluated instance of the statement: a struct with a string, an
     omitted empty field, a pointer to a nested struct with a slice, round-tripped -/
@@ -75,7 +107,7 @@ example :
     let vs : List RV := [.leaf (.s [104, 105]), .ptr (.struct [.slice [.leaf (.i 7), .leaf (.i 9)], .leaf (.s [])])]
     wfStruct find fs vs = true ∧ distinct (levelCodes find fs) = true ∧
     (match marshalStruct find fs vs with
-     | .ok as => as.length == 2 && rvsBeq (normFields fs (scanFields find 64 fs as (zeroOf.zeroFields fs))) (normFields fs vs)
+     | .ok as => as.length == 2 && rvsBeq (scanFields find fs as (zeroOf.zeroFields fs)) (normFields fs vs)
      | _ => false) = true := by
   decide
 
